@@ -44,6 +44,26 @@ func originCalls(v ssa.Value) []*ssa.Call {
 	return out
 }
 
+// originCallsDeep is originCalls that looks through small module helpers: when an origin is a call of
+// a module function, the origins of that function's returned values are added (bounded depth), so
+// that extracting an expression into a helper does not change the verdict.
+func originCallsDeep(p *core.Prog, v ssa.Value, depth int) []*ssa.Call {
+	var out []*ssa.Call
+	for _, c := range originCalls(v) {
+		out = append(out, c)
+		g := c.Call.StaticCallee()
+		if depth <= 0 || g == nil || !p.InModule(g) || len(g.Blocks) == 0 || len(g.Blocks) > 12 {
+			continue
+		}
+		for _, ret := range core.Returns(g) {
+			for i := range ret.Results {
+				out = append(out, originCallsDeep(p, core.ReturnOperand(ret, i), depth-1)...)
+			}
+		}
+	}
+	return out
+}
+
 // errGuardedFalse: instruction at executes only if the error result of call w was nil, i.e. its block
 // is dominated by the false edge of `e != nil` (or the true edge of `e == nil`) with e originating
 // from w.
@@ -183,6 +203,9 @@ func underIface(v ssa.Value) ssa.Value {
 
 // pathLeaves decomposes a path expression built with path.Join / filepath.Join / string
 // concatenation / fmt.Sprintf into its leaf values.
+// PathLeaves exposes pathLeaves.
+func PathLeaves(v ssa.Value) []ssa.Value { return pathLeaves(v) }
+
 func pathLeaves(v ssa.Value) []ssa.Value {
 	var out []ssa.Value
 	seen := map[ssa.Value]bool{}
